@@ -52,19 +52,64 @@ pub fn run(ctx: &mut Ctx) {
         }
     }
     // random pairs: composable by construction (2/3) or arbitrary (1/3)
-    let n = ctx.budget(3000, 60000);
+    let n = ctx.budget(20000, 300000);
     for i in 0..n {
         let b = if i % 4 == 0 { MEDIUM } else { SMALL };
         let f = random_model(&mut ctx.rng, b);
         let g = if ctx.rng.chance(2, 3) { random_model_with_source(&mut ctx.rng, b, &f.target_type()) } else { random_model(&mut ctx.rng, b) };
         chk_compose(ctx, &json!({"f": f.json(), "g": g.json()}));
     }
-    // long chains of identifications collapsing many nodes into one (needs depth in the union-find)
-    for k in [2usize, 4, 6, 7] {
-        let m = 1usize << k;
-        // f: m nodes, outputs pair them up in a binary-tree pattern against g's inputs
-        let f = M { w: vec![0; m], x: vec![], src: vec![], tgt: vec![], s: vec![0], t: (0..m - 1).map(|i| i + 1).chain(0..m - 1).collect() };
-        let g = M { w: vec![0; m], x: vec![], src: vec![], tgt: vec![], s: (0..m - 1).chain((0..m - 1).map(|i| (i + 1) / 2)).collect(), t: vec![m - 1] };
+    // chains of identifications collapsing many nodes into one, merged in binomial-tree order so that the
+    // union-find behind the coequalizer reaches depth k+1 (pairs are (f.t[i], g.s[i]), in this order)
+    for k in 1usize..=6 {
+        let t = 1usize << k; // f has nodes F_0..F_{t-1}, g has nodes G_0..G_{t-1}
+        let mut ft: Vec<usize> = (0..t).collect();
+        let mut gs: Vec<usize> = (0..t).collect();
+        for l in 1..=k {
+            let step = 1usize << l;
+            let mut i = 0;
+            while i < t {
+                ft.push(i);
+                gs.push(i + step / 2);
+                i += step;
+            }
+        }
+        for labels in [vec![0u8; t], (0..t).map(|i| (i % 2) as u8).collect::<Vec<u8>>()] {
+            let f = M { w: vec![0; t], x: vec![10], src: vec![vec![0]], tgt: vec![vec![t - 1]], s: vec![0], t: ft.clone() };
+            let mut g = M { w: vec![0; t], x: vec![11], src: vec![vec![t - 1]], tgt: vec![vec![0]], s: gs.clone(), t: vec![t - 1] };
+            if labels.iter().any(|&l| l != 0) {
+                // a variant whose types differ somewhere: must be refused, not glued
+                g.w = labels.clone();
+            }
+            chk_compose(ctx, &json!({"f": f.json(), "g": g.json()}));
+        }
+    }
+    // discrete (spider-like) operands: equal legs, non-injective / non-surjective legs, as many legs as nodes
+    let nsp = ctx.budget(1500, 20000);
+    for _ in 0..nsp {
+        let n = ctx.rng.range(1, 4);
+        let labels = ctx.rng.range(1, 2);
+        let w: Vec<u8> = (0..n).map(|_| ctx.rng.below(labels) as u8).collect();
+        let ls = if ctx.rng.chance(1, 2) { n } else { ctx.rng.range(0, 4) };
+        let s = ctx.rng.vec_below(ls, n);
+        let t = if ctx.rng.chance(1, 2) { s.clone() } else { let lt = ctx.rng.range(0, 4); ctx.rng.vec_below(lt, n) };
+        let sp = M { w, x: vec![], src: vec![], tgt: vec![], s, t };
+        if ctx.rng.chance(1, 2) {
+            // f ; spider  with f any model of matching target type
+            let mut f = dagger(&random_model_with_source(&mut ctx.rng, SMALL, &sp.source_type()));
+            if ctx.rng.chance(1, 3) { f = dagger(&identity(&sp.source_type())); }
+            chk_compose(ctx, &json!({"f": f.json(), "g": sp.json()}));
+        } else {
+            let g = random_model_with_source(&mut ctx.rng, SMALL, &sp.target_type());
+            chk_compose(ctx, &json!({"f": sp.json(), "g": g.json()}));
+        }
+    }
+    // empty boundary: f : a -> I, g : I -> b
+    for _ in 0..ctx.budget(300, 3000) {
+        let mut f = random_model(&mut ctx.rng, SMALL);
+        let mut g = random_model(&mut ctx.rng, SMALL);
+        f.t = vec![];
+        g.s = vec![];
         chk_compose(ctx, &json!({"f": f.json(), "g": g.json()}));
     }
     ctx.notes.push("rule: pairs (f,g) of plain models; non-trivial = both have a node and an edge or interface; bounds SMALL(3 nodes,2 edges,arity 2,iface 3,labels 2) and MEDIUM(5,3,3,4,2); corner list x corner list exhaustive".into());
